@@ -23,6 +23,7 @@ var commands = map[string]func(args map[string]string){
 	"channel":  cmdChannel,
 	"notifier": cmdNotifier,
 	"callable": cmdCallable,
+	"workers":  cmdWorkers,
 }
 
 // usage: harness <driver> -k v -k v ...
